@@ -84,9 +84,21 @@ fn pick(rng: &mut Rng, near: f32, far: f32, lim: f32) -> f32 {
 }
 
 pub fn gen(rng: &mut Rng) -> Case {
-    let big = rng.chance(1, 4);
-    let bw = if big { 25 + rng.below(104) as u32 } else { 1 + rng.below(24) as u32 };
-    let bh = if big { 25 + rng.below(72) as u32 } else { 1 + rng.below(24) as u32 };
+    gen_sized(rng, 24, true)
+}
+
+/// Reduced workload for Miri: scenes in buffers ≤ 8x8.
+pub fn mini(rng: &mut Rng, n: usize, rep: &mut Report) {
+    for _ in 0..n {
+        let c = gen_sized(rng, 8, false);
+        run_case(rep, &c);
+    }
+}
+
+pub fn gen_sized(rng: &mut Rng, small_max: u64, allow_big: bool) -> Case {
+    let big = allow_big && rng.chance(1, 4);
+    let bw = if big { 25 + rng.below(104) as u32 } else { 1 + rng.below(small_max) as u32 };
+    let bh = if big { 25 + rng.below(72) as u32 } else { 1 + rng.below(small_max) as u32 };
     let tk = rng.pick(&[Tk::FbOwned, Tk::FbOwned, Tk::FbWindow, Tk::ColOwned, Tk::ColWindow]);
     let win = if tk.is_window() {
         let ox = rng.below(bw as u64) as u32;
